@@ -137,17 +137,22 @@ def rule_eqhash(report, cls, exceptions=None, clause=None, require_init_match=Tr
                 else:
                     bad.append(f"compares different attributes: {txt}")
                 continue
-            bad.append(f"not an equality of one attribute on both operands: {txt}")
-            continue
+            raise AnalysisError(f"{eq.key}: __eq__ has a conjunct R-EQHASH cannot read: {txt}")
         if isinstance(c, ast.Call) and call_name(c) == "isinstance":
             type_test = True
             continue
-        bad.append(f"unrecognised conjunct: {src(c)}")
+        raise AnalysisError(f"{eq.key}: __eq__ has a conjunct R-EQHASH cannot read: {src(c)}")
     report.check(not bad, rule, eq, "__eq__ is a conjunction of same-attribute equalities",
                  {"problems": bad} if bad else {"compared": compared}, clause)
     report.check(type_test, rule, eq, "__eq__ tests the operand's type",
                  None if type_test else "no type(self) == type(other) / isinstance test", clause)
     hashed = sorted(set(_self_attrs_read(hs.node, hs.params[0])))
+    inits_, _unres = init_attrs(cls)
+    if any(a not in inits_ and a not in compared for a in hashed) and inits_:
+        # __hash__ reads something that is not an instance attribute (a class-level table, a helper): not the spelling this
+        # rule reads
+        raise AnalysisError(f"{hs.key}: __hash__ reads {[a for a in hashed if a not in inits_ and a not in compared]}, "
+                            "which __init__ never sets; R-EQHASH cannot read it")
     extra = [a for a in hashed if a not in compared]
     report.check(not extra, rule, hs, "attributes hashed are a subset of attributes compared",
                  {"hashed": hashed, "compared": compared, "hashed_but_not_compared": extra}, clause)
@@ -168,7 +173,9 @@ def rule_eqhash(report, cls, exceptions=None, clause=None, require_init_match=Tr
         e = _single_return_expr(ne)
         ok = (e is not None and isinstance(e, ast.UnaryOp) and isinstance(e.op, ast.Not)
               and isinstance(e.operand, ast.Compare) and isinstance(e.operand.ops[0], ast.Eq))
-        report.check(ok, rule, ne, "__ne__ is the negation of __eq__", None if ok else src(ne.node), clause)
+        if not ok:
+            raise AnalysisError(f"{ne.key}: __ne__ is not spelled `not (a == b)`; R-EQHASH cannot read it")
+        report.ok(rule, ne, "__ne__ is the negation of __eq__", None, clause)
 
 
 # --------------------------------------------------------------------------
